@@ -72,6 +72,7 @@ pub struct Hx {
     pub prog: Rc<Prog>,
     pub trace: bool,
     pub strict: bool,
+    pub matrix: bool,
     pub info: Vec<ItemInfo>,
     pub gbag: Vec<Handle>,
     pub arefs: Vec<Option<Actor<Act>>>,
@@ -2009,6 +2010,29 @@ fn run_top(prog: &Prog) {
             }
             Op::DropStakker => {
                 if st.is_some() {
+                    // feature-matrix mode: an abrupt drop only when nothing can defer afterwards
+                    let can_defer_later = |b: &Vec<Handle>| {
+                        b.iter().any(|x| match x {
+                            Handle::Own(_) | Handle::Anon(_) | Handle::DropDefer(_) => true,
+                            Handle::Ret(r) => r.aid.is_some(),
+                            _ => false,
+                        })
+                    };
+                    let matrix_block = hx(|h| {
+                        h.matrix
+                            && (!h.mon.lazy.is_empty()
+                                || !h.mon.idle.is_empty()
+                                || !h.mon.timers.is_empty()
+                                || h.mon.actors.iter().any(|a| a.st != AState::Zombie)
+                                || can_defer_later(&h.gbag))
+                    }) || (hx(|h| h.matrix) && can_defer_later(&bag));
+                    if matrix_block {
+                        hx(|h| h.rep.class("abrupt-drop-skipped:matrix-mode"));
+                        let b = std::mem::take(&mut bag);
+                        drop(b);
+                        orderly_shutdown(&mut st);
+                        continue;
+                    }
                     let sig = hx(|h| if h.strict || h.dead { None } else { h.mon.f2_signature() });
                     let weak = hx(|h| h.weak_backref);
                     if sig.is_none() && weak {
@@ -2037,7 +2061,13 @@ fn run_top(prog: &Prog) {
             }
             op => match st.as_mut() {
                 Some(s) => exec_op(&mut Env::Top(s), op, &mut bag, &mut fr),
-                None => exec_op(&mut Env::NoCore, op, &mut bag, &mut fr),
+                None => {
+                    // deferring after the Stakker is gone is the documented exclusion, and where
+                    // such closures end up differs per deferrer: not generated in matrix mode
+                    if !hx(|h| h.matrix) {
+                        exec_op(&mut Env::NoCore, op, &mut bag, &mut fr)
+                    }
+                }
             },
         }
     }
@@ -2117,6 +2147,9 @@ fn summarize(h: &mut Hx) {
     }
     if s.crossed_recreate > 0 {
         rep.class("run-crosses-60s-recreation");
+    }
+    if m.items.iter().any(|i| i.q == Q::Timer && i.st == IState::Ran) {
+        rep.class("timer-fired");
     }
     if m.stat_drop_handler_submit > 0 {
         rep.class("drop-handler-defers");
@@ -2216,6 +2249,7 @@ fn execute_prog(prog: Rc<Prog>, opts: &crate::Opts) -> CaseReport {
         prog: prog.clone(),
         trace: opts.trace,
         strict: opts.strict,
+        matrix: opts.matrix,
         info: Vec::with_capacity(64),
         gbag: Vec::new(),
         arefs: Vec::new(),
